@@ -88,6 +88,9 @@ pub enum Path {
     /// only legal as the first piece: Min/Max::from_value(first item) then add loop (C14);
     /// other types treat it as AddLoop
     FromValue,
+    /// only meaningful as the first piece: the accumulator starts as `Default::default()`
+    /// instead of `new()`, then add loop
+    DefaultCtor,
 }
 
 pub trait Item: Copy + Debug + PartialEq + Send + Sync + 'static {
@@ -161,6 +164,14 @@ pub trait Est: Clone + Debug + Serialize + DeserializeOwned + Send + 'static {
             Path::CollectRef if first_piece => *self = Self::collect_ref(items),
             Path::CollectVal => self.extend_val(items),
             Path::CollectRef => self.extend_ref(items),
+            Path::DefaultCtor => {
+                if first_piece {
+                    *self = Self::fresh_default();
+                }
+                for &x in items {
+                    self.push(x);
+                }
+            }
             Path::FromValue => {
                 let mut rest = items;
                 if first_piece && !items.is_empty() {
